@@ -224,15 +224,16 @@ CHECKS["C02"] = {
 CHECKS["C17"] = {
     "level": "exploration",
     "technique": _TECH + ": many tasks on one cache / one configuration / one server / one stream, PRNG-chosen interleavings at simulator I/O primitives and at scheduling points inserted (go/ast, scratch copy) at function entries and around every lock operation; race detector with the scheduler's hand-offs hidden from it; porcupine linearizability check of the cache history",
-    "level_text": "Seeded interleaving exploration under the race detector. The working tree is copied to a scratch directory, a go/ast pass inserts simulator-controlled scheduling points (entry of every function of security, stream, server, client, ccb, message; before every Lock/RLock, after every Unlock/RUnlock; lock acquisition itself becomes a TryLock loop that parks on the simulator), and the binary is built with -race while the simulator, scenario and hook packages are compiled without instrumentation and bracket their hand-offs with RaceDisable: the detector therefore sees only the ordering cedar's own locks, atomics and channels provide, although the scheduler runs one task at a time, so one deterministic replayable run both explores a chosen interleaving and reports every pair of conflicting accesses cedar does not order. Three workloads: (1) 2-5 tasks x 3-7 random cache operations (store, three kinds of lookup, command mapping, invalidate, expiry sweep, dump, snapshot, size, clear, lease renewal, expiry getters) on 2-3 overlapping ids with virtual-time expiry, the recorded history (stamped with a global event counter) checked by porcupine against a sequential map-with-expiry model, plus sequential quiescence lookups; (2) 2-5 clients sharing ONE SecurityConfig and one cache connecting at once through client.ConnectAndAuthenticateWithConfig to one server.Server (ServeConn per connection, one config, one cache), fresh or resuming one shared session, with a maintenance task sweeping/dumping/renewing both caches: every connection must succeed, be encrypted and get its own echo; (3) after a handshake, one goroutine writes while another reads on each end of one stream (plain or AES-GCM, two sender APIs, sizes up to multi-frame). Right level because the property quantifies over schedules, which can only be sampled; the race detector makes each sample decide all pairs of accesses it executed, not only the interleaving it ran.",
-    "level_note": "Trusts the Go race detector (happens-before, bounded history window) and that compiling the simulator without instrumentation hides nothing of cedar's. Scheduling points never park while the running task holds a cedar lock, so interleavings are explored at the granularity of whole critical sections (sufficient for linearizability of correctly locked code; unlocked conflicting accesses are the detector's job). ccb.Listener's writer/reader split is exercised only through the stream workload's equivalent (one writer, one reader per end), not through a live broker. Map iteration order inside cedar (InvalidateExpired, DebugDump) is Go-runtime randomness the simulator does not own; the oracles are order-insensitive.",
+    "level_text": "Seeded interleaving exploration under the race detector. The working tree is copied to a scratch directory, a go/ast pass inserts simulator-controlled scheduling points (entry of every function of security, stream, server, client, ccb, message; before every Lock/RLock, after every Unlock/RUnlock; lock acquisition itself becomes a TryLock loop that parks on the simulator), and the binary is built with -race while the simulator, scenario and hook packages are compiled without instrumentation and bracket their hand-offs with RaceDisable: the detector therefore sees only the ordering cedar's own locks, atomics and channels provide, although the scheduler runs one task at a time, so one deterministic replayable run both explores a chosen interleaving and reports every pair of conflicting accesses cedar does not order. Four workloads: (1) 2-5 tasks x 3-7 random cache operations (store, three kinds of lookup, command mapping, invalidate, expiry sweep, dump, snapshot, size, clear, lease renewal, expiry getters) on 2-3 overlapping ids with virtual-time expiry, the recorded history (stamped with a global event counter) checked by porcupine against a sequential map-with-expiry model, plus sequential quiescence lookups; (2) 2-5 clients sharing ONE SecurityConfig and one cache connecting at once through client.ConnectAndAuthenticateWithConfig to one server.Server (ServeConn per connection, one config, one cache, in half the runs a SecurityConfigForCommand hook returning one shared object), fresh or resuming one shared session, with a maintenance task sweeping/dumping/renewing both caches: every connection must succeed, be encrypted and get its own echo; (3) after a handshake, one goroutine writes while another reads on each end of one stream (plain or AES-GCM, two sender APIs, 1 B - 20 KB); (4) a real ccb.Listener registered with a scripted broker that sends several requests at once, so that cedar's own request goroutines and heartbeat write to the one broker stream while its serve loop reads it: every request answered exactly once, everything parseable. Workers run with 1, 1, 2 and 4 processors in turn (goroutines cedar starts itself then really run in parallel with the task that started them; a violation is replayed with the count it was found with). Right level because the property quantifies over schedules, which can only be sampled; the race detector makes each sample decide all pairs of accesses it executed, not only the interleaving it ran.",
+    "level_note": "Trusts the Go race detector (happens-before, bounded history window) and that compiling the simulator without instrumentation hides nothing of cedar's. Scheduling points never park while the running task holds a cedar lock, so interleavings are explored at the granularity of whole critical sections (sufficient for linearizability of correctly locked code; unlocked conflicting accesses are the detector's job). Map iteration order inside cedar (InvalidateExpired, DebugDump) is Go-runtime randomness the simulator does not own; the oracles are order-insensitive.",
     "budget": {"quick": 40, "thorough": 1200},
     "rule": "a case is one simulated run of one workload under one PRNG-chosen schedule and yield-site subset; distinct = distinct event-log hash (scheduled primitive keys incl. yield/lock-wait parks per task); non-trivial = the scheduler had a choice.",
-    "real": ["security.SessionCache / SessionEntry", "security.Authenticator (client and server handshakes, session resumption)", "client.ConnectAndAuthenticateWithConfig", "server.Server.ServeConn", "stream.Stream", "message.Message"],
-    "stub": _SIM + ["scheduling points and TryLock loops inserted into a scratch copy of the sources (semantics-preserving; cedar's own suite passes on the rewritten copy)", "credential files (in-memory CredentialReader)", "pid/hostname in session ids (verif hook)", "ccb.Listener against a live broker: not run"],
+    "real": ["security.SessionCache / SessionEntry", "security.Authenticator (client and server handshakes, session resumption)", "client.ConnectAndAuthenticateWithConfig", "server.Server.ServeConn", "stream.Stream", "message.Message", "ccb.Listener (registration, serve loop, heartbeat, request handlers)"],
+    "stub": _SIM + ["scheduling points and TryLock loops inserted into a scratch copy of the sources (semantics-preserving; cedar's own suite passes on the rewritten copy)", "credential files (in-memory CredentialReader)", "pid/hostname in session ids (verif hook)", "CCB broker and requester (scripted tasks speaking the real control-ad protocol)"],
     "assumptions": ["fault-free network in the handshake workload (faults are other properties' subject)", _SAMPLING],
     "race": True,
     "replay_retries": 5,
+    "gomaxprocs_by_shard": [1, 1, 2, 4],  # varied processor counts; a violation is replayed at the count it was found with
     "yield_build": ["security", "stream", "server", "client", "ccb", "message"],
     "mem_gb": 0,
 }
